@@ -325,6 +325,11 @@ class _JSONPipeCommunicator:
         self._write_fd: int | None
         self._selector: selectors.BaseSelector
 
+        # Messages may be transferred in multiple parts, if they do not fit
+        # into the pipe. These buffers store the parts read and still to write:
+        self._read_buffer = b""
+        self._write_buffer = b""
+
         if not read_pipe.exists():
             os.mkfifo(read_pipe)
         if not write_pipe.exists():
@@ -347,13 +352,18 @@ class _JSONPipeCommunicator:
         events = self._selector.select(timeout=self._timeout)
         for _, mask in events:
             if mask & selectors.EVENT_READ:
-                with os.fdopen(os.dup(self._read_fd), "r", encoding="utf-8") as fd:
-                    buffer = ""
-                    while line := fd.readline():
-                        if line.strip() == self.DELIMITER:
-                            buffer = buffer.strip()
-                            return json.loads(buffer) if buffer else buffer
-                        buffer += line
+                # Collect everything that is available, the delimiter may
+                # arrive in a later call:
+                with contextlib.suppress(BlockingIOError):
+                    while data := os.read(self._read_fd, 65536):
+                        self._read_buffer += data
+        message, delimiter, remainder = self._read_buffer.partition(
+            f"\n{self.DELIMITER}\n".encode()
+        )
+        if delimiter:
+            self._read_buffer = remainder
+            buffer = message.decode().strip()
+            return json.loads(buffer) if buffer else buffer
         return None
 
     def write(self, data: str | list[Any] | dict[str, Any]) -> bool:
@@ -366,12 +376,17 @@ class _JSONPipeCommunicator:
         if self._write_fd is None:
             self._write_fd = os.open(self._write_pipe, os.O_WRONLY | os.O_NONBLOCK)
             self._selector.register(self._write_fd, selectors.EVENT_WRITE)
+        # If a previous call could only write a part of the message, the
+        # remainder is still in the buffer and this call continues with it:
+        if not self._write_buffer:
+            self._write_buffer = (
+                f"{json.dumps(data, cls=NumpyEncoder)}\n{self.DELIMITER}\n".encode()
+            )
         events = self._selector.select(timeout=self._timeout)
         for _, mask in events:
             if mask & selectors.EVENT_WRITE:
-                os.write(
-                    self._write_fd,
-                    f"{json.dumps(data, cls=NumpyEncoder)}\n{self.DELIMITER}\n".encode(),
-                )
-                return True
+                with contextlib.suppress(BlockingIOError):
+                    written = os.write(self._write_fd, self._write_buffer)
+                    self._write_buffer = self._write_buffer[written:]
+                return not self._write_buffer
         return False
